@@ -340,6 +340,102 @@ def _unchecked_ok(f, n):
     return None
 
 
+def _rooted_with_field(f, e, root_local, depth=0):
+    """e denotes a strict sub-part of the value bound to root_local: a place rooted there with at least
+    one field, possibly through pattern bindings of matches on such places and as_*/unwrap projections"""
+    if depth > 6:
+        return False
+    e = hir.peel(e)
+    nfields = 0
+    while True:
+        k = e.get("k")
+        if k == "Field":
+            nfields += 1
+            e = hir.peel(e["x"])
+        elif k == "MethodCall" and (e["method"].startswith("as_") or e["method"] in ("unwrap", "as_ref", "as_deref", "expect")):
+            e = hir.peel(e["recv"])
+        else:
+            break
+    l = hir.local_of(e)
+    if l is None:
+        return False
+    if l[0] == root_local:
+        return nfields > 0
+    b = f.bindings().get(l[0])
+    if not b or f.assignments_to(l[0]):
+        return False
+    o = b["origin"]
+    if o[0] == "match":
+        sc = hir.peel(o[1])
+        if hir.local_of(sc) and hir.local_of(sc)[0] == root_local:
+            return nfields > 0 or len(o[2]) > 1
+        return _rooted_with_field(f, sc, root_local, depth + 1)
+    if o[0] == "let" and o[1] is not None:
+        if nfields > 0 and hir.local_of(o[1]) and hir.local_of(o[1])[0] == root_local:
+            return True
+        return _rooted_with_field(f, o[1], root_local, depth + 1) or (nfields > 0 and _rooted_or_same(f, o[1], root_local, depth + 1))
+    return False
+
+
+def _rooted_or_same(f, e, root_local, depth):
+    e = hir.peel(e)
+    l = hir.local_of(e)
+    return bool(l and l[0] == root_local) or _rooted_with_field(f, e, root_local, depth)
+
+
+def _structural_descent_loop(f, loop):
+    from ..prov import value_exprs
+
+    body = loop.get("body")
+    if not body or body.get("k") != "Block" or body["stmts"] or "tail" not in body:
+        return False
+    t = hir.peel(body["tail"])
+    if t.get("k") != "If" or "else" not in t:
+        return False
+    c = hir.peel(t["cond"])
+    if c.get("k") != "LetCond":
+        return False
+    cur = hir.local_of(c["init"])
+    if cur is None or not (hir.peel(c["init"]).get("ty") or "").startswith("std::option::Option<&") or (hir.peel(c["init"]).get("ty") or "").startswith("std::option::Option<&mut"):
+        return False
+    if str(hir.pat_variant(c["pat"])).split("::")[-1] != "Some":
+        return False
+    bs = hir.pat_bindings(c["pat"])
+    if len(bs) != 1:
+        return False
+    x = bs[0]["local"]
+    if not any(n.get("k") == "Break" for n in hir.walk(t["else"])):
+        return False
+    if any(n.get("k") == "Continue" for n in hir.walk(loop)):
+        return False
+    then = hir.peel(t["then"])
+    blk = then["block"] if then.get("k") == "BlockExpr" else then
+    if blk.get("k") != "Block":
+        return False
+    direct = False
+    for st in blk["stmts"]:
+        e = st.get("e")
+        if e is not None and hir.peel(e).get("k") == "Assign" and hir.local_of(hir.peel(e)["l"]) and hir.local_of(hir.peel(e)["l"])[0] == cur[0]:
+            direct = True
+    if not direct:
+        return False
+    for a in f.assignments_to(cur[0]):
+        if not any(anc is loop for anc in f.ancestors(a)):
+            continue
+        if a.get("k") != "Assign":
+            return False
+        for v in value_exprs(a["r"]):
+            v = hir.peel(v)
+            if v.get("k") == "Path" and (v["res"].get("ctor_path") or "").split("::")[-1] == "None":
+                continue
+            if v.get("k") == "Call" and (hir.peel(v["f"]).get("res", {}).get("ctor_path") or "").split("::")[-1] == "Some" and _rooted_with_field(f, v["args"][0], x):
+                continue
+            if v.get("k") == "MethodCall" and v["method"].startswith("as_") and _rooted_with_field(f, v["recv"], x):
+                continue
+            return False
+    return True
+
+
 def rule_loops(check):
     R = "LOOPS"
     check.rule(R, "no `loop`/`while` in crate-written code; every `for` iterates a finite collection or range; the call-graph cycles are exactly the reviewed ones (each with its decreasing measure)")
@@ -371,7 +467,12 @@ def rule_loops(check):
                             ok = True
                         if not names and hir.place(x) or (x.get("k") == "Field"):
                             ok = True
+                        ity = (it.get("ty") or "").replace("&mut ", "").replace("&", "").strip()
+                        if ity.startswith(("std::vec::Vec<", "std::option::Option<", "std::collections::", "[", "std::boxed::Box<[")):
+                            ok = True  # an owned or borrowed finite collection, whatever produced it
                     check.expect(ok, R, "%s/for/%s" % (R, T.short(f)), hir.loc(n), "for over finite %s" % desc, "for loop over %s: finiteness not recognised" % desc)
+                elif _structural_descent_loop(f, n):
+                    check.ok(R, "%s/%s/descent" % (R, T.short(f)), hir.loc(n), "`while let Some(x) = cur`: every iteration replaces cur by None or by a strict sub-part of x (shared borrow of the tree): bounded by the depth of the tree")
                 else:
                     check.bad(R, "%s/%s/%s" % (R, T.short(f), src.split("(")[0].lower() or "loop"), hir.loc(n), "unbounded loop construct (%s) in crate code" % (src or "loop"))
     check.floor(R, "for loops inspected", n_for, 5)
@@ -495,13 +596,157 @@ def _sccs(edges):
     return out
 
 
+def _in_value_position(f, node):
+    """the value of node is (forwarded as) the value of the function: tail of blocks, closure bodies
+    handed to a call whose own value is forwarded, `return`, never a discarded statement"""
+    cur = node
+    for _ in range(40):
+        par = f.parent(cur)
+        if par is None:
+            return True
+        k = par.get("k")
+        if k in ("DropTemps", "Use", "BlockExpr", "Ret", "Cast", "Type"):
+            cur = par
+        elif k == "Block":
+            if par.get("tail") is not cur:
+                return False
+            cur = par
+        elif k == "Closure":
+            cur = par
+        elif k in ("Call", "MethodCall"):
+            # a closure argument whose result the callee returns (with / map / and_then ...): accept
+            # when we got here through a closure; a plain argument position is not forwarding
+            if cur.get("k") != "Closure":
+                return False
+            cur = par
+        elif k in ("If", "Match"):
+            cur = par
+        else:
+            return False
+    return False
+
+
+DM_GUARDS_R = {"iter", "get", "try_get"}
+DM_GUARDS_W = {"iter_mut", "get_mut", "entry", "try_get_mut", "try_entry"}
+DM_WRITES = {"insert", "remove", "remove_if", "remove_if_mut", "retain", "clear", "alter", "alter_all", "shrink_to_fit", "swap"} | DM_GUARDS_W
+DM_READS = {"contains_key", "len", "is_empty", "view"} | DM_GUARDS_R
+COMMENTS_WRITES = {"add_leading": "leading", "add_leading_comments": "leading", "move_leading": "leading", "take_leading": "leading", "add_pure_comment": "leading", "add_trailing": "trailing", "add_trailing_comments": "trailing", "move_trailing": "trailing", "take_trailing": "trailing"}
+COMMENTS_READS = {"has_leading": "leading", "get_leading": "leading", "with_leading": "leading", "has_trailing": "trailing", "get_trailing": "trailing", "with_trailing": "trailing", "has_flag": "leading"}
+
+
+def _is_dashmap(ty):
+    return "DashMap<" in (ty or "") or "dashmap::DashMap" in (ty or "")
+
+
+def _dm_ops(prog, f):
+    """[(node, map place, kind)] kind in guard-r / guard-w / write / read for every DashMap operation in f,
+    including the swc Comments API on an owner of two DashMaps"""
+    out = []
+    for n in f.nodes():
+        if n.get("k") != "MethodCall":
+            continue
+        m = n["method"]
+        recv = hir.peel(n["recv"])
+        rty = recv.get("ty") or ""
+        pl = hir.place(recv, transparent=False) or hir.place(recv)
+        if _is_dashmap(rty) and pl:
+            kind = "guard-r" if m in DM_GUARDS_R else "guard-w" if m in DM_GUARDS_W else "write" if m in DM_WRITES else "read" if m in DM_READS else "write"
+            out.append((n, pl, kind))
+        elif ("Comments" in rty) and pl and (m in COMMENTS_WRITES or m in COMMENTS_READS):
+            which = COMMENTS_WRITES.get(m) or COMMENTS_READS.get(m)
+            out.append((n, "%s.%s" % (pl, which), "write" if m in COMMENTS_WRITES else "read"))
+    return out
+
+
+def rule_lock_order(check):
+    R = "LOCK-ORDER"
+    check.rule(R, "no operation that needs a shard lock of a DashMap (comment maps of swc) is evaluated while an iterator / reference guard of the same map is alive - scrutinee temporaries of `if let` / `match` / `for` live until the end of the whole construct, `let`-bound guards until the end of the block: a write under a live guard never returns (self-deadlock)")
+    prog = check.prog
+    n_guards = 0
+    for f in prog.user_fns:
+        ops = _dm_ops(prog, f)
+        if not ops:
+            continue
+        for g, pl, kind in ops:
+            if not kind.startswith("guard"):
+                continue
+            n_guards += 1
+            region = _guard_region(f, g)
+            inside = {id(x) for r_ in region for x in hir.walk(r_)}
+            own_chain = {id(x) for x in hir.walk(g)}
+            conflicts = []
+            for w, wpl, wkind in ops:
+                if w is g or id(w) not in inside or id(w) in own_chain:
+                    continue
+                if wpl != pl:
+                    continue
+                if wkind in ("write", "guard-w") or kind == "guard-w":
+                    conflicts.append((w, "%s.%s(..)" % (wpl.split("#")[0] + "." + wpl.split(".", 1)[1] if "." in wpl else wpl, w["method"])))
+            # crate helpers that receive the owner and write to the map
+            owner_root = pl.split(".")[0]
+            for c in (x for r_ in region for x in hir.walk(r_)):
+                if not hir.is_call(c) or id(c) in own_chain:
+                    continue
+                h = prog.resolve_local(c)
+                if h is None or h.body is None:
+                    continue
+                if not any((hir.place(a) or "").split(".")[0] == owner_root for a in hir.call_args(c)):
+                    continue
+                for hh in prog.flat(h):
+                    if any(k_ in ("write", "guard-w") for _, _, k_ in _dm_ops(prog, hh)):
+                        conflicts.append((c, "%s(..) which writes to a DashMap" % h.name))
+                        break
+            key = "%s/%s/%s.%s" % (R, T.short(f), pl.split(".")[-1], g["method"])
+            if conflicts:
+                w, what = conflicts[0]
+                check.bad(R, key, hir.loc(w), "%s is evaluated while the guard returned by %s.%s() at %s is still alive (scrutinee / binding lifetime): the write lock on the same shard can never be taken - the call never returns" % (what, pl.split(".")[-1], g["method"], hir.loc(g)))
+            else:
+                check.ok(R, key, hir.loc(g), "no write to %s while this guard is alive" % pl.split("#")[0])
+    check.floor(R, "DashMap guard sites", n_guards, 2)
+
+
+def _guard_region(f, g):
+    """expressions evaluated while the temporary/binding holding the guard g is alive"""
+    cur = g
+    for _ in range(60):
+        par = f.parent(cur)
+        if par is None:
+            return [cur]
+        k = par.get("k")
+        if k == "Match" and any(x is cur for x in hir.walk(par["scrut"])):
+            return [par]
+        if k == "If" and any(x is cur for x in hir.walk(par["cond"])):
+            return [par]
+        if k == "Closure":
+            return [cur]
+        if k == "Block":
+            for i, st in enumerate(par["stmts"]):
+                e = st.get("init") if st["k"] == "Let" else st.get("e")
+                if e is cur:
+                    if st["k"] == "Let":
+                        tys = [b.get("ty") or "" for b in hir.pat_bindings(st["pat"])]
+                        if any("dashmap::" in t for t in tys):
+                            rest = []
+                            for st2 in par["stmts"][i + 1 :]:
+                                e2 = st2.get("init") if st2["k"] == "Let" else st2.get("e")
+                                if e2 is not None:
+                                    rest.append(e2)
+                            if "tail" in par:
+                                rest.append(par["tail"])
+                            return [cur] + rest
+                    return [cur]
+            return [cur]
+        cur = par
+    return [cur]
+
+
 def rule_plumbing(check):
     R = "ERROR-PLUMBING"
     check.rule(R, "rewrite_js parses and transforms inside swc's try_with_handler (diagnostics become Err); the wasm entry point maps Err to a JsError and never unwraps the rewrite result; error paths of extract_source_map end in None")
     prog = check.prog
     rj = prog.fn("rewriter::rewrite_js")
     th = [n for n in hir.calls_in(rj.body, name="try_with_handler")]
-    ok = len(th) == 1 and hir.peel(rj.body) is th[0] or (len(th) == 1 and th[0] in [hir.peel(r) for r in return_exprs(rj.body)])
+    ok = len(th) == 1 and _in_value_position(rj, th[0])
     inner = th and [x for x in hir.walk(th[0]) if hir.is_call(x) and hir.callee_name(x) in ("parse_js", "transform_js")]
     check.expect(ok and inner and len(inner) == 2, R, R + "/try_with_handler", hir.loc(rj.rec), "parse and transform run inside try_with_handler", "rewrite_js does not run parse/transform inside try_with_handler")
     rw = prog.fn("lib_wasm::Rewriter::rewrite")
@@ -509,7 +754,7 @@ def rule_plumbing(check):
     ret = [hir.peel(r) for r in return_exprs(rw.body)]
     check.expect(len(me) >= 1 and me[0] in ret, R, R + "/map_err", hir.loc(rw.rec), "Err(e) -> JsError", "the wasm entry point does not map rewrite errors to JsError")
     es = prog.fn("rewriter::extract_source_map")
-    oks = [n for n in hir.calls_in(es.body, name="ok")]
+    oks = [n for g, n in prog.flat_calls(es, name="ok")]
     check.expect(len(oks) >= 1, R, R + "/extract-errors-to-none", hir.loc(es.rec), "decode/read errors are turned into None with .ok()", "extract_source_map no longer turns read/decode errors into None")
 
 
@@ -517,6 +762,7 @@ def run(check):
     check.guarded("PANIC", rule_panic)
     check.guarded("LOOPS", rule_loops)
     check.guarded("ERROR-PLUMBING", rule_plumbing)
+    check.guarded("LOCK-ORDER", rule_lock_order)
     return {
         "explanation": "Inventory of every crate-written panic obligation from typed HIR (cross-checked against MIR assert terminators), each discharged by a guard rule evaluated on structural path conditions or by a reviewed table entry keyed by (function, callee, receiver); loop and call-graph-cycle rules; error plumbing.",
         "assumptions": ["no panics, aborts or non-termination inside swc, sourcemap, base64, serde, wasm-bindgen (trusted base)", "macro-generated code (wasm_bindgen, serde derives, format/log macros) is trusted base", "stack exhaustion by pathological nesting is out of scope (property statement)"],
